@@ -58,7 +58,15 @@ def xnpv(rate, values, dates=None):
 
         def _(r):
             e = isinstance(r, str) and Error.errors['#VALUE!']
-            return get_error(r, e) or func(r)
+            e = get_error(r, e)
+            if e:
+                return e
+            if r == -1:
+                return Error.errors['#DIV/0!']
+            v = func(r)
+            if get_error(v) or np.isfinite(v):
+                return v
+            return Error.errors['#NUM!']
 
         rate = text2num(replace_empty(rate))
         return np.vectorize(_, otypes=[object])(rate).view(Array)
